@@ -263,6 +263,8 @@ def trace_distance(a: np.ndarray, b: np.ndarray) -> float:
     ||H||_F <= ||H||_1 <= sqrt(D) ||H||_F, and index/sign errors are O(1) in both), plus the largest
     anti-Hermitian element."""
     d = a - b
+    if not np.all(np.isfinite(d)):
+        return float("inf")
     h = 0.5 * (d + d.conj().T)
     ah = 0.5 * (d - d.conj().T)
     if h.shape[0] <= 160:
